@@ -44,6 +44,30 @@ EscapeWellFormed ==
           LET t == NearestIdx({"call"}) IN
           \A j \in (t + 1) .. Len(K) : K[j].f \in Transparent \cup LoopFrames
 
+\* Heap frame conditions, as an action property: a step changes at most one
+\* existing cell; cells keep their kind; lists keep their length; objects only
+\* gain keys; function cells never change; allocation only appends.
+HeapFrameStep ==
+    /\ Len(heap') >= Len(heap)
+    /\ Cardinality({i \in 1 .. Len(heap) : heap'[i] # heap[i]}) <= 1
+    /\ \A i \in 1 .. Len(heap) :
+          /\ heap'[i].k = heap[i].k
+          /\ heap[i].k = "list" => Len(heap'[i].items) = Len(heap[i].items)
+          /\ heap[i].k = "object" => DOMAIN heap[i].props \subseteq DOMAIN heap'[i].props
+          /\ heap[i].k = "func" => heap'[i] = heap[i]
+HeapFrame == [][HeapFrameStep]_mcvars
+
+\* Scopes: a step changes at most one existing scope; scopes only gain names.
+ScopeFrameStep ==
+    /\ Len(scopes') >= Len(scopes)
+    /\ Cardinality({i \in 1 .. Len(scopes) : scopes'[i] # scopes[i]}) <= 1
+    /\ \A i \in 1 .. Len(scopes) : DOMAIN scopes[i].vars \subseteq DOMAIN scopes'[i].vars
+ScopeFrame == [][ScopeFrameStep]_mcvars
+
+\* Output only grows, and a finished run never moves again.
+OutputMonotoneStep == IsPrefix(out, out') /\ (status.k # "running" => UNCHANGED vars)
+OutputMonotone == [][OutputMonotoneStep]_mcvars
+
 \* model integer range (8-bit: overflow is reachable with small literals)
 MCMinInt == -128
 MCMaxInt == 127
